@@ -6,7 +6,7 @@ use crate::gen;
 use crate::out::{catch, emit};
 use jubako as jbk;
 use jbk::creator::{ContentPackCreator, PackRecipient};
-use jbk::reader::{EntryTrait, MayMissPack, Range};
+use jbk::reader::{MayMissPack, Range};
 use serde::Deserialize;
 use serde_json::{json, Value as J};
 use std::sync::Arc;
